@@ -183,6 +183,11 @@ def split_json_raw(spec: dict, stream: bytes) -> tuple[list[tuple], int]:
             if end < 0:
                 return out, pos
             seplen = 0
+        elif c in b"]}":
+            # a stray closing bracket where a document should start: a one-byte malformed document (it cannot be shorter,
+            # and taking more would eat into whatever follows)
+            end = i + 1
+            seplen = 0
         else:
             j = i
             while j < n and stream[j] in _JSON_PLAIN:
